@@ -303,10 +303,16 @@ def c01(tier):
                 scen_steps.append(rl.Scenario("head-" + hs, {"f1.rs": [S(11, ref=1), S(12, ref=7), S(13, ref=3)], "f2.rs": [S(21), S(22)]},
                                               lock=lock, use_cache=cache, structured=structured, head_style=hs))
     # literals with quote characters / a trailing backslash in front of the statements that carry the existing IDs
+    for kind in range(1, 7):
+        for structured, cache, lock in ((False, None, None), (True, False, 2)):
+            scen_steps.append(rl.Scenario("literal-prelude-%d" % kind, {"f1.rs": [S(11, ref=1), S(12, ref=7), S(13, ref=3)], "f2.rs": [S(21), S(22)]},
+                                          lock=lock, use_cache=cache, structured=structured, literal_prelude=kind))
+    # an ignored statement that logs a URL directly above the statement that carries the largest ID
     for structured in (False, True):
         for cache, lock in ((None, None), (False, 2)):
-            scen_steps.append(rl.Scenario("literal-prelude", {"f1.rs": [S(11, ref=1), S(12, ref=7), S(13, ref=3)], "f2.rs": [S(21), S(22)]},
-                                          lock=lock, use_cache=cache, structured=structured, literal_prelude=True))
+            scen_steps.append(rl.Scenario("ignored-url-neighbour", {"f1.rs": [S(11, kind="ignored"), S(12, ref=7), S(13, kind="ignored"), S(14, ref=6)],
+                                                                    "f2.rs": [S(21), S(22, ref=3), S(23), S(24)]},
+                                          lock=lock, use_cache=cache, structured=structured, head_style="urlmsg"))
     # where the files are and how the macros are configured: existing IDs below directories a tool might want to skip
     # (target, hidden, deep), and macro names configured under two modules with statements qualified either way
     for structured in (False, True):
@@ -934,6 +940,12 @@ def c18(tier):
         K, n = rl.sweep(binary, sc, "edit", ["TERM", "INT"], batch, v, follow="check",
                         pre_steps=[("edit", ""), ("lock", "corrupt"), ("devfn", "delete_highest_and_add", 3)])
         log("[sweep] %s (later run, unusable lock): %d operations, %d runs" % (sc.name, K, n))
+    # winding down takes time: after the stop request the lock file needs 2.6 s to open.  The run still finishes its
+    # file, records the IDs and exits by itself
+    sc = rl.Scenario("slow-wind-down", {"f1.rs": [S(11), S(12)], "f2.rs": [S(21)], "f3.rs": [S(31), S(32)]}, lock=None)
+    K, n = rl.sweep(binary, sc, "edit", ["TERM+slow", "INT+slow"] if tier == "thorough" else ["TERM+slow"], batch, v, follow="check",
+                    only_ops=None if tier == "thorough" else ("tmp.create", "tmp.write", "tmp.rename", "dir.readdir"))
+    log("[sweep] %s: %d operations, %d runs" % (sc.name, K, n))
     batch.judge(v, {"C18"})
     v.cov["rule"] = ("SIGINT and SIGTERM raised inside the interposed call immediately before every counted operation k of "
                      "check and edit runs (signals before the handlers exist included); distinct = (scenario, mode, k, signal)")
